@@ -1,4 +1,5 @@
 import PlzVerif.Lemmas.SchedProgress
+import PlzVerif.Lemmas.SchedFinal
 import PlzVerif.Lemmas.SchedFacts
 import PlzVerif.Lemmas.SchedRun
 import PlzVerif.Generated.C04
@@ -170,6 +171,131 @@ theorem C05_witness_cycle_needs_detector :
     | workerFail w => simp [fire, hws w] at hf
     | workerDone w => simp [fire, hws w] at hf
     | initDone => simp [fire, hid] at hf
+
+/-- **C05, completeness half (final state of a keep-going run).**
+    For every graph with acyclic, in-range dependencies, with `NeedBuild`:
+    * (termination) there is no infinite sequence of state-changing steps — whatever fails, whatever the schedule,
+      no fairness assumption (`C05_terminates`);
+    * for every keep-going run of the build phase (`RunKG req s`: the targets `req` are requested during the initial
+      scan, the program then does whatever it can in any order; nobody closes the queues from outside the task
+      counting and every dependency can be queued) that is maximal (`¬ CanStep`: no goroutine can step any more):
+      - `plz.Run` returns (`Final`: queues closed — by `numPending` reaching 0 — and drained, all workers done);
+      - the exit flag is set exactly when some target failed; it is set whenever a requested target is tainted;
+      - every requested target `t` has exactly one terminal report, and it is a failure report
+        (`failed` / `depFailed`) **exactly when** `t` failed or transitively depends on a target that failed
+        (`Tainted`), with state Failed resp. DependencyFailed;
+      - every requested target that is not tainted ends in a Built state and is reported built or cached.
+    The same holds for every target a requested one needs (`s.st t ≠ .inactive`), see `final_state`.
+    Not covered (stated in the header): the parse phase, runs in which the queues are stopped from outside
+    (no --keep_going after a failure, the cycle check, `asyncError`) — there unbuilt requested targets remain and
+    only "exit flag set" (`C05_failure_sets_exit_flag`) holds; the translation of the flag into the process exit
+    status (`toExitCode`), which is checked end to end. -/
+theorem C05_final_complete (hn : c.needBuild = true) (hwf : WF c) (hacy : Acyclic c) :
+    WellFounded (fun s' s => Reach c s ∧ Step c s s' ∧ s' ≠ s) ∧
+    ∀ (req : List T) (s : St), RunKG c req s → ¬ CanStep c s →
+      Final s ∧ (s.failed = true ↔ ∃ t, s.st t = .failed) ∧ ((∃ t ∈ req, Tainted c s t) → s.failed = true) ∧
+      ∀ t ∈ req, s.nres t = 1 ∧
+        (Tainted c s t ↔ (s.res t = some .failed ∨ s.res t = some .depFailed)) ∧
+        (Tainted c s t → s.st t = .failed ∨ s.st t = .depFailed) ∧
+        (¬ Tainted c s t → (s.st t).isBuilt = true ∧ (s.res t = some .built ∨ s.res t = some .cached)) := by
+  refine ⟨C05_terminates c hwf, ?_⟩
+  intro req s hrun hmax
+  obtain ⟨hfin, _, hterm, hbad, hbuilt, hflag⟩ := final_state c hn hacy hrun hmax
+  have hi := reach_inv c (runKG_reach c hrun)
+  have kg := runKG_inv c hrun
+  refine ⟨hfin, hflag, ?_, ?_⟩
+  · intro ⟨t, _, ht⟩
+    obtain ⟨d, hd⟩ := tainted_has_failed c ht
+    exact hi.failedFlag d hd
+  · intro t ht
+    have hne : s.st t ≠ .inactive := by
+      intro e; have := kg.requested hn t ht; rw [e] at this; revert this; decide
+    have hT := hterm t hne
+    have hfint : s.fin t = true := by rw [hi.finTerm t]; exact hT
+    have hnres : s.nres t = 1 := by rw [hi.nresFin t, hfint]; rfl
+    have hsome := hi.resSome t
+    rw [hfint] at hsome
+    obtain ⟨r, hr⟩ := Option.isSome_iff_exists.mp hsome
+    have hk := hi.resKind t r hr
+    have hb := hbad t hne
+    have bad_iff : (s.st t).isBad = true ↔ (s.st t = .failed ∨ s.st t = .depFailed) := by
+      cases s.st t <;> simp [TS.isBad, TS.rank]
+    refine ⟨hnres, ?_, ?_, ?_⟩
+    · rw [← hb, bad_iff, hr]
+      constructor
+      · rintro (h | h)
+        · exact .inl (congrArg some (hk.1.mpr h))
+        · exact .inr (congrArg some (hk.2.mpr h))
+      · rintro (h | h)
+        · exact .inl (hk.1.mp (Option.some.inj h))
+        · exact .inr (hk.2.mp (Option.some.inj h))
+    · intro hta; exact bad_iff.mp (hb.mpr hta)
+    · intro hnt
+      have hbu := hbuilt t hne hnt
+      refine ⟨hbu, ?_⟩
+      rw [hr]
+      have h1 : r ≠ .failed := fun e => by
+        have := hk.1.mp e; rw [this] at hbu; revert hbu; decide
+      have h2 : r ≠ .depFailed := fun e => by
+        have := hk.2.mp e; rw [this] at hbu; revert hbu; decide
+      cases r <;> simp_all
+
+/-- a failing leaf 0 with two dependants 1 and 2, and an independent target 3 -/
+def leafFails : Cfg := ⟨4, fun t => if t = 1 ∨ t = 2 then [0] else [], true⟩
+
+/-- 1, 2 and 3 are requested; 3 and 0 are queued and dispatched; 3 is built, 0 fails; the queuers of 1 and 2 find
+    their dependency failed; everybody finishes; the initial scan ends -/
+def leafFailsSchedule : List Action :=
+  [.activate 1 false, .activate 2 false, .activate 3 false,
+   .queuer 0, .queuer 0, .queuer 1, .queuer 1,
+   .queuer 2, .queuer 2, .queuer 2, .queuer 3, .queuer 3, .queuer 3,
+   .take 0, .workerStart 0, .workerOk 0 .built false, .workerDone 0,
+   .take 1, .workerStart 1, .workerFail 1, .workerDone 1,
+   .queuer 0, .queuer 0, .queuer 1, .queuer 1, .initDone]
+
+def leafFailsEnd : St := ((runKGActs leafFails [] St.init leafFailsSchedule).map (·.2)).getD St.init
+
+-- non-vacuity of `C05_final_complete`: a keep-going run on that graph that is maximal, with acyclic in-range
+-- dependencies; its final state is as the theorem says (0 failed, its dependants 1 and 2 dependency-failed,
+-- the independent 3 built, exit flag set)
+example : RunKG leafFails [3, 2, 1] leafFailsEnd ∧ ¬ CanStep leafFails leafFailsEnd ∧ WF leafFails ∧ Acyclic leafFails ∧
+    leafFails.needBuild = true ∧
+    leafFailsEnd.st 0 = .failed ∧ leafFailsEnd.st 1 = .depFailed ∧ leafFailsEnd.st 2 = .depFailed ∧
+    leafFailsEnd.st 3 = .built ∧ leafFailsEnd.failed = true ∧
+    Tainted leafFails leafFailsEnd 1 ∧ leafFailsEnd.res 1 = some .depFailed ∧ leafFailsEnd.res 3 = some .built := by
+  have hrun : RunKG leafFails [3, 2, 1] leafFailsEnd := by
+    have h : runKGActs leafFails [] St.init leafFailsSchedule = some ([3, 2, 1], leafFailsEnd) := by
+      have hs : (runKGActs leafFails [] St.init leafFailsSchedule).isSome = true := rfl
+      have hq : ((runKGActs leafFails [] St.init leafFailsSchedule).map (·.1)) = some [3, 2, 1] := rfl
+      cases hr : runKGActs leafFails [] St.init leafFailsSchedule with
+      | none => rw [hr] at hs; cases hs
+      | some p =>
+        obtain ⟨rq, st⟩ := p
+        rw [hr] at hq
+        simp only [Option.map_some, Option.some.injEq] at hq
+        subst hq
+        have : leafFailsEnd = st := by unfold leafFailsEnd; rw [hr]; rfl
+        rw [this]
+    exact runKGActs_run leafFails _ RunKG.init h
+  have hi := reach_inv leafFails (runKG_reach leafFails hrun)
+  have hu : units leafFailsEnd = 0 := rfl
+  have hwf : WF leafFails := by
+    intro t d h
+    show d < 4
+    simp only [leafFails] at h
+    split at h
+    · simp at h; subst h; decide
+    · simp at h
+  have hacy : Acyclic leafFails := by
+    refine ⟨fun t => t, ?_⟩
+    intro t d h
+    show d < t
+    simp only [leafFails] at h
+    split at h
+    · rename_i h12; simp at h; subst h; rcases h12 with h1 | h2 <;> subst_vars <;> decide
+    · simp at h
+  exact ⟨hrun, quiet_not_canStep leafFails (quiet_of_units leafFails hi hu), hwf, hacy, rfl, rfl, rfl, rfl, rfl, rfl,
+    .dep (d := 0) (by decide) (.self rfl), rfl, rfl⟩
 
 /-- **Never runs a target whose dependency failed**: a target with a failed (or dependency-failed) dependency
     has not been started and, being unable to pass the wait for that dependency, never will be. -/
